@@ -504,7 +504,7 @@ fn main() {
     check.set_extra("grid_archives", json!(g.len()));
 
     // random archives
-    let n = check.tier.pick(800u32, 24_000);
+    let n = check.tier.pick(4_000u32, 300_000);
     pt::run(
         &check,
         "c01-random",
